@@ -98,7 +98,7 @@ Entry(as, a)   == as[CHOOSE i \in 1..Len(as) : as[i].l = a]
 
 -----------------------------------------------------------------------------
 ObsInit == /\ now = 0 /\ cfg = [gw |-> 0, gi |-> 1, ri |-> 1, integs |-> <<[name |-> "webhook/0", sr |-> TRUE]>>, inhibit |-> FALSE, windows |-> << >>, wait |-> 0, maxwait |-> 0]
-           /\ ver = << >> /\ sil = << >> /\ last = << >> /\ brk = << >> /\ fl = << >> /\ cancd = [seen |-> {}, dead |-> << >>, deadgk |-> {}, refl |-> {}]
+           /\ ver = << >> /\ sil = << >> /\ last = << >> /\ brk = << >> /\ fl = << >> /\ cancd = [seen |-> {}, dead |-> << >>, deadgk |-> {}, refl |-> {}, ing |-> << >>]
            /\ elig = [p \in Alerts \X {"webhook/0"} |-> -1] /\ chk = {}
 
 \* eligibility clocks (C01), recomputed at every step for the new instant
@@ -124,15 +124,19 @@ C01_Deadline ==
 
 (* --- environment events ------------------------------------------------ *)
 Cfg(c) ==
-  /\ cfg' = c /\ now' = 0 /\ ver' = << >> /\ sil' = << >> /\ last' = << >> /\ brk' = << >> /\ fl' = << >> /\ cancd' = [seen |-> {}, dead |-> << >>, deadgk |-> {}, refl |-> {}]
+  /\ cfg' = c /\ now' = 0 /\ ver' = << >> /\ sil' = << >> /\ last' = << >> /\ brk' = << >> /\ fl' = << >> /\ cancd' = [seen |-> {}, dead |-> << >>, deadgk |-> {}, refl |-> {}, ing |-> << >>]
   /\ elig' = [p \in Alerts \X NamesOfIntegs(c.integs) |-> -1] /\ chk' = {}
 
 Ingest(a, v) ==
   /\ ver' = Put(ver, a, v)
   /\ elig' = EligNext(now, ver', sil)
   \* refl: alerts updated while a flush of their group is being delivered (C05: they stay in the group)
-  /\ cancd' = IF \E x \in DOMAIN fl : fl[x].gk = GroupKeyOf(a) /\ a \in NamesOf(fl[x].alerts)
-                 THEN [cancd EXCEPT !.refl = @ \cup {a}] ELSE cancd
+  \* ing: per group key, the first hand-over since the last completed flush of that key (a group
+  \* created by it waits group_wait)
+  /\ LET gk == GroupKeyOf(a)
+         c1 == IF gk \in DOMAIN cancd.ing THEN cancd ELSE [cancd EXCEPT !.ing = Put(@, gk, now)]
+     IN cancd' = IF \E x \in DOMAIN fl : fl[x].gk = gk /\ a \in NamesOf(fl[x].alerts)
+                   THEN [c1 EXCEPT !.refl = @ \cup {a}] ELSE c1
   /\ chk' = {}
   /\ UNCHANGED <<now, cfg, sil, last, brk, fl>>
 
@@ -185,6 +189,11 @@ FlushBegin(ag, gk, as) ==
         \cup (IF \E a \in names \cap DOMAIN ver : Entry(as, a).upd = ver[a].upd /\ Entry(as, a).status = "firing" /\ ver[a].end < now
                 THEN {"C05_firing_after_end"} ELSE {})
         \cup (IF ag \in DOMAIN fl THEN {"C06_overlapping_flushes_of_one_group"} ELSE {})
+        \* C06: a (re-)created group waits group_wait before its first flush, unless it holds an
+        \* alert that started longer ago than that
+        \cup (IF ag \notin cancd.seen /\ names # {} /\ gk \in DOMAIN cancd.ing /\ cancd.ing[gk] + cfg.gw > now
+                   /\ \A a \in names : Entry(as, a).start + cfg.gw >= now
+                THEN {"C06_first_flush_before_group_wait"} ELSE {})
   IN IF Dead(ag) THEN /\ chk' = {} /\ UNCHANGED <<now, cfg, ver, sil, last, brk, fl, cancd, elig>>
      ELSE
      /\ fl' = Put(fl, ag, [gk |-> gk, t |-> now, to |-> Timeout, alerts |-> as, att |-> [i \in Integs |-> NoAtt],
@@ -317,7 +326,8 @@ FlushDone(ag) ==
   IN IF Dead(ag) THEN /\ chk' = {} /\ UNCHANGED <<now, cfg, ver, sil, last, brk, fl, cancd, elig>>
      ELSE /\ fl' = IF ag \in DOMAIN fl THEN Drop(fl, {ag}) ELSE fl
           /\ chk' = bad
-          /\ UNCHANGED <<now, cfg, ver, sil, last, brk, cancd, elig>>
+          /\ cancd' = IF ag \in DOMAIN fl THEN [cancd EXCEPT !.ing = Drop(@, {fl[ag].gk})] ELSE cancd
+          /\ UNCHANGED <<now, cfg, ver, sil, last, brk, elig>>
 
 \* the dispatcher is being stopped (config reload, shutdown): its groups die; a flush in
 \* progress is cancelled and a dying group may still run one more flush with a dead
@@ -326,7 +336,7 @@ Cancelling ==
   /\ cancd' = [seen |-> cancd.seen,
                dead |-> [x \in DOMAIN cancd.dead \cup cancd.seen \cup DOMAIN fl |->
                            IF x \in DOMAIN cancd.dead THEN cancd.dead[x] ELSE now],
-               deadgk |-> cancd.deadgk \cup {fl[x].gk : x \in DOMAIN fl}, refl |-> cancd.refl]
+               deadgk |-> cancd.deadgk \cup {fl[x].gk : x \in DOMAIN fl}, refl |-> cancd.refl, ing |-> cancd.ing]
   /\ fl' = << >>
   /\ chk' = {}
   /\ UNCHANGED <<now, cfg, ver, sil, last, brk, elig>>
@@ -337,7 +347,10 @@ Reloading(integs) ==
   /\ cancd' = [seen |-> cancd.seen,
                dead |-> [x \in DOMAIN cancd.dead \cup cancd.seen \cup DOMAIN fl |->
                            IF x \in DOMAIN cancd.dead THEN cancd.dead[x] ELSE now],
-               deadgk |-> cancd.deadgk \cup {fl[x].gk : x \in DOMAIN fl}, refl |-> cancd.refl]
+               deadgk |-> cancd.deadgk \cup {fl[x].gk : x \in DOMAIN fl}, refl |-> cancd.refl,
+               \* the new dispatcher creates its groups from the provider's alerts right now
+               ing |-> [g \in DOMAIN cancd.ing \cup {GroupKeyOf(a) : a \in DOMAIN ver} |->
+                          IF g \in DOMAIN cancd.ing THEN cancd.ing[g] ELSE now]]
   /\ fl' = << >>
   /\ cfg' = [cfg EXCEPT !.integs = integs]
   /\ elig' = [p \in Alerts \X NamesOfIntegs(integs) |-> IF p \in DOMAIN elig THEN elig[p] ELSE -1]
@@ -361,6 +374,36 @@ NflogMerge(gk, name, ts, firing, resolved) ==
                   ELSE UNCHANGED <<last, brk>>
      /\ chk' = {}
      /\ UNCHANGED <<now, cfg, ver, sil, fl, cancd, elig>>
+
+\* GET /api/v2/alerts at a quiescent instant: the suppression status the API reports equals the
+\* direct evaluation of the stored silences / the inhibition rule (C02, C03), and exactly the
+\* alerts whose end has not passed are listed
+ApiAlerts(list) ==
+  LET names == {list[j].l : j \in 1..Len(list)}
+      E(a) == list[CHOOSE j \in 1..Len(list) : list[j].l = a]
+      bad ==
+        (IF \E a \in names \cap Alerts : FiringAt(a, now) /\ ((E(a).nsil > 0) # MutedAt(a, now))
+           THEN {"C02_api_status_differs_from_stored_silences"} ELSE {})
+        \cup (IF \E a \in names \cap Alerts : FiringAt(a, now) /\ ((E(a).ninh > 0) # InhibitedAt(a, now))
+           THEN {"C03_api_inhibition_status_differs_from_rule"} ELSE {})
+        \cup (IF \E a \in names \cap Alerts : FiringAt(a, now) /\ ((E(a).state = "suppressed") # SuppressedAt(a, now))
+           THEN {"C02_api_state_differs"} ELSE {})
+        \cup (IF \E a \in DOMAIN ver : FiringAt(a, now) /\ a \notin names THEN {"C13_firing_alert_not_listed"} ELSE {})
+        \cup (IF \E a \in names \cap DOMAIN ver : ver[a].end < now THEN {"C13_resolved_alert_listed"} ELSE {})
+  IN /\ chk' = bad
+     /\ UNCHANGED <<now, cfg, ver, sil, last, brk, fl, cancd, elig>>
+
+\* GET /api/v2/alerts/groups at a quiescent instant: exactly the partition of the current
+\* alerts by group_by value (C06)
+ApiGroups(list) ==
+  LET bad ==
+        (IF \E j \in 1..Len(list) : \E a \in SeqToSet(list[j].alerts) : a \in Alerts /\ Lbl[a].g # list[j].g
+           THEN {"C06_api_group_holds_foreign_alert"} ELSE {})
+        \cup (IF \E i, j \in 1..Len(list) : i # j /\ list[i].g = list[j].g THEN {"C06_api_shows_two_groups_for_one_key"} ELSE {})
+        \cup (IF \E a \in DOMAIN ver : FiringAt(a, now) /\ ~\E j \in 1..Len(list) : a \in SeqToSet(list[j].alerts)
+           THEN {"C06_api_groups_miss_firing_alert"} ELSE {})
+  IN /\ chk' = bad
+     /\ UNCHANGED <<now, cfg, ver, sil, last, brk, fl, cancd, elig>>
 
 Other == /\ chk' = {} /\ UNCHANGED <<now, cfg, ver, sil, last, brk, fl, cancd, elig>>
 
